@@ -6,7 +6,7 @@ HOOKS = {
     'add_only': True,
 }
 ENGINES = [
-    {'name': 'V', 'path': 'tools/vgen.py', 'serves_properties': ['C03', 'C05', 'C13'],
+    {'name': 'V', 'path': 'tools/vgen.py', 'serves_properties': ['C03', 'C05', 'C06', 'C13', 'C18'],
      'kind_free_text': 'Verus 0.2026.09.13 (Z3) on functions cut out of /repo (source files or -Zunpretty=expanded) on every run, contracts spliced in from contracts/*.vt'},
 ]
 NOTES = 'One CLI: ./check <id> --tier quick|thorough. Exit 0 all obligations discharged; 1 VIOLATION; 2 tool limit (never an alarm). Fixed defects and known findings: known_findings.json.'
@@ -23,5 +23,11 @@ CHECKS = {
     'C13': dict(engine='V', level='proof', design_ref='4/C13', technique='Verus postconditions on MessageFrame::new as functions of the first L+6 bytes + lemma over suffix extension',
                 text='Every accessor value of an accepted frame is proved equal to a spec function of the frame\'s own L+6 bytes; lemma wf_for(s) == wf_for(s + x) for all suffixes x; message number present iff L >= 2.',
                 note=V_NOTE + ' get_message reading only data()/message_number() is covered by the C14 unit when present.'),
+    'C06': dict(engine='V', level='proof', design_ref='4/C06', technique='Verus lemmas by induction over the scanner specification scan(), which next_msg_frame is proved equal to',
+                text='The caller protocol of the statement (append chunk, call scanner until it delivers nothing, drop consumed bytes) is written as spec functions feed/drain; lemma_c06_statement proves feed(chunks) == drain(concat(chunks)) for every stream and every chunking by induction, from scan_extend (a delivered frame is unaffected by later data; an undecided candidate is kept). The code enters only through scan.* obligations of next_msg_frame and new.* of MessageFrame::new.',
+                note=V_NOTE + ' feed/drain model the caller (not repository code), as the statement itself does.'),
+    'C18': dict(engine='V', level='proof', design_ref='4/C18', technique='Verus: each table function re-emitted verbatim as spec twin; bijection/range/total-order lemmas over the twins; cmp postcondition; reference positions',
+                text='For all seven constellations (discovered from the expansion): to_sig/to_id are proved equal to spec twins that are their own match tables, lemmas prove the bijection in both directions for all u8 and all (u8,char), positions within 2..=32, is_valid == in table, Ord::cmp == the order of positions with unrecognised last and a lexicographic tie-break, reflexive/antisymmetric/transitive; the RTCM/RINEX reference positions are checked one-directionally.',
+                note=V_NOTE + ' <char as Ord>::cmp has an assumed specification (code-point order). Reference positions are transcribed from RTCM 10403.3 by hand.'),
 }
 NOT_APPLICABLE = {}
